@@ -1,7 +1,9 @@
 package pipe
 
 import (
+	"context"
 	"encoding/hex"
+	"errors"
 	"fmt"
 	"sync"
 	"time"
@@ -107,6 +109,7 @@ type input struct {
 	Validates bool // decodes and ledger.VerifyBlock says valid (only meaningful with validation on)
 	DecErr    string
 	ValErr    string
+	ProvErr   string // non-empty: the nonce provider fails for this block with this kind of error
 }
 
 type inputKey struct {
@@ -239,7 +242,44 @@ func genInput(rt *rapid.T, cfg pipeCfg, pValidPct int) *input {
 	if in == nil {
 		in = classify(inputSpec{Base: base, Kind: "valid"}, cfg.SkipBodyHash, validate)
 	}
+	// Failure model of the validate stage beyond "VerifyBlock says no": the
+	// nonce provider fails for this block, with a plain error or with an error
+	// that is / wraps a context error although the pipeline context is alive
+	// (e.g. a ledger lookup bounded by its own deadline).
+	if validate && in.Decodes && rapid.IntRange(0, 11).Draw(rt, "providerFails") == 11 {
+		in = withProviderFailure(in, rapid.SampledFrom(providerFailKinds).Draw(rt, "providerErr"))
+	}
 	return in
+}
+
+var providerFailKinds = []string{"plain", "wraps-deadline-exceeded", "wraps-canceled", "bare-deadline-exceeded", "bare-canceled"}
+
+// withProviderFailure returns a copy of in for which the harness's nonce
+// provider fails: ValidateStage then records a validation error, so the block
+// must come out of Results() as failed and must not be applied.
+func withProviderFailure(in *input, kind string) *input {
+	c := *in
+	c.ProvErr = kind
+	c.Validates = false
+	c.ValErr = "eta0 provider error: " + kind
+	c.Desc = in.Desc + "+provider:" + kind
+	return &c
+}
+
+func providerError(kind string) error {
+	switch kind {
+	case "plain":
+		return errors.New("harness: nonce unknown")
+	case "wraps-deadline-exceeded":
+		return fmt.Errorf("harness: nonce lookup: %w", context.DeadlineExceeded)
+	case "wraps-canceled":
+		return fmt.Errorf("harness: nonce lookup: %w", context.Canceled)
+	case "bare-deadline-exceeded":
+		return context.DeadlineExceeded
+	case "bare-canceled":
+		return context.Canceled
+	}
+	panic("bad provider failure kind " + kind)
 }
 
 // genDelay draws a latency in microseconds: mostly zero, sometimes small,
